@@ -256,3 +256,16 @@ def construction_sites(facts, adt_npath, depth=0):
             continue
         out.append((b, bi, fields, loc))
     return out
+
+
+def owners(facts, npath, depth=0):
+    """The functions of the pinned tree on whose behalf `npath` runs: itself, or -- for a helper that is new relative to the
+    pinned tree -- the (transitive) callers of that helper."""
+    import facts as F
+    base = npath.split("::{closure")[0]
+    if not facts.is_new_helper(base) or depth > 3:
+        return {npath}
+    out = set()
+    for (cb, cbi, t, name) in F.calls_to(facts, lambda n, _p=base: n == _p):
+        out |= owners(facts, cb.npath, depth + 1)
+    return out or {npath}
